@@ -3,6 +3,7 @@ import TT.Driver.C03
 import TT.Driver.C04
 import TT.Driver.C05
 import TT.Driver.C06
+import TT.Driver.C07
 import TT.Driver.C08
 import TT.Driver.C10
 import TT.Driver.C11
@@ -25,6 +26,7 @@ def answer (line : String) : String :=
   | "c04" :: rest => c04 rest
   | "c05" :: rest => c05 rest
   | "c06" :: rest => c06 rest
+  | "c07" :: rest => c07 rest
   | "c08" :: rest => c08 rest
   | "c10" :: rest => c10 rest
   | "c11" :: rest => c11 rest
